@@ -6,6 +6,32 @@ import sys
 import traceback
 
 
+def run_corpus(mod, params):
+    """Replay every witness of the regression corpus (vf/props/corpus/<PROP>.json) through the module's own replay()."""
+    if params.get("ext_dir"):
+        from vf.simharness import setup_codec
+        setup_codec(params, False)
+    with open(params["corpus_file"]) as f:
+        corpus = json.load(f)
+    res = {"evaluations": 0, "nontrivial": [], "violations": [], "inconclusive": [], "counters": {}, "sets": {}, "samples": []}
+    seen = set()
+    for ent in corpus:
+        try:
+            r = mod.replay(ent["witness"])
+        except Exception:  # noqa: BLE001
+            res["inconclusive"].append(f"corpus entry {ent.get('seeded')}/{ent.get('mechanism')}: replay raised "
+                                       + traceback.format_exc()[-600:])
+            continue
+        res["evaluations"] += r.get("evaluations", 1)
+        res["counters"]["corpus_witnesses_replayed"] = res["counters"].get("corpus_witnesses_replayed", 0) + 1
+        for v in r.get("violations", []):
+            if v["mechanism"] in seen:
+                continue
+            seen.add(v["mechanism"])
+            res["violations"].append(v)
+    return res
+
+
 def main():
     faulthandler.enable()
     prop, pfile, ofile = sys.argv[1:4]
@@ -13,7 +39,7 @@ def main():
         params = json.load(f)
     mod = importlib.import_module(f"vf.props.{prop.lower()}")
     try:
-        res = mod.run_shard(params)
+        res = run_corpus(mod, params) if params.get("corpus_file") else mod.run_shard(params)
     except BaseException:
         res = {"evaluations": 0,
                "inconclusive": ["worker crashed outside any case: " + traceback.format_exc()[-3000:]]}
